@@ -1,10 +1,157 @@
-(* C07 — oneof exclusivity over histories (work in progress: the theorems are added as they are proved). *)
-From BP Require Import Base.Prelude Model.Types Model.Object Model.C07Ops.
+(* C07 — oneof exclusivity holds after any history of operations.
 
-Theorem C07_new_selects_nothing : forall sc c g, which_one_of (new sc c) g = None.
-Proof.
-  intros sc c g. unfold which_one_of, new. cbn [ocur].
-  generalize (cngroups (get_class sc c)) as n. intros n. revert g.
-  induction n as [|n IH]; intros [|g]; cbn [repeat nth]; auto.
-Qed.
-Print Assumptions C07_new_selects_nothing.
+   Model: Model/Object.v (new / construct / getattr / setattr / which_one_of), Model/Encode.v (bytes),
+   Model/Decode.v (parse), Model/History.v (copy / deepcopy / pickle / nested assignment / observers, [step], [run]),
+   Model/C07Ops.v ([step7] / [run7]: construct-with-kwargs and from_dict as operations).
+   Invariant [Inv] (Proofs/C07InvP.v), in observable terms: _group_current has one entry per group; for every group g,
+     which_one_of = None   -> every member of g raises AttributeError and its raw attribute is the sentinel
+     which_one_of = Some i -> i is a member of g, reading it succeeds, reading any other member raises AttributeError.
+   No theorem below has a bound on the length of the history, on the schema (except where wf_schema is written) or on
+   the values assigned (PLACEHOLDER, None, ill-typed and out-of-range values included). *)
+From BP Require Import Base.Prelude Model.Types Model.Object Model.Eq Model.Encode Model.Decode.
+From BP Require Import Model.History Model.C07Ops Model.C07Step Model.WellFormed.
+From BP Require Import Proofs.C07InvP Proofs.C07LoadP Proofs.C07HistP.
+
+(* ---- the invariant: initial states ---- *)
+Theorem C07_inv_init_new : forall sc c, Inv sc (new sc c).
+Proof. exact inv_new. Qed.
+Print Assumptions C07_inv_init_new.
+
+Theorem C07_inv_init_construct : forall sc c kw, Inv sc (construct sc c kw).
+Proof. exact inv_construct. Qed.
+Print Assumptions C07_inv_init_construct.
+
+Theorem C07_inv_init_from_dict : forall sc c kw, Inv sc (from_dict_cls sc c kw).
+Proof. exact inv_from_dict_cls. Qed.
+Print Assumptions C07_inv_init_from_dict.
+
+Theorem C07_inv_init_parse : forall sc c bs o, parse sc c bs = Ok o -> Inv sc o.
+Proof. exact inv_parse. Qed.
+Print Assumptions C07_inv_init_parse.
+
+(* ---- every operation preserves it ---- *)
+Theorem C07_inv_step : forall sc o p o' x, Inv sc o -> step sc o p = Ok (o', x) -> Inv sc o'.
+Proof. exact inv_step. Qed.
+Print Assumptions C07_inv_step.
+
+Theorem C07_inv_step7 : forall sc o p o' x, Inv sc o -> step7 sc o p = Ok (o', x) -> Inv sc o'.
+Proof. exact inv_step7. Qed.
+Print Assumptions C07_inv_step7.
+
+(* ---- every finite history, and every prefix of it ---- *)
+Theorem C07_inv_reachable : forall sc c ops o, run7 sc (new sc c) ops = Ok o -> Inv sc o.
+Proof. exact inv_reachable. Qed.
+Print Assumptions C07_inv_reachable.
+
+Theorem C07_inv_run : forall sc ops o o', Inv sc o -> run7 sc o ops = Ok o' -> Inv sc o'.
+Proof. exact inv_run7. Qed.
+Print Assumptions C07_inv_run.
+
+Theorem C07_inv_every_prefix : forall sc c ops o,
+  run7 sc (new sc c) ops = Ok o ->
+  forall k, exists ok, run7 sc (new sc c) (firstn k ops) = Ok ok /\ Inv sc ok.
+Proof. exact inv_every_prefix. Qed.
+Print Assumptions C07_inv_every_prefix.
+
+(* ---- assigning a member always makes it the selected one — for ANY value, the default included ---- *)
+Theorem C07_last_wins : forall sc o i v f g,
+  Inv sc o ->
+  nth_error (cfs sc o) i = Some f -> fgroup f = Some g -> (g < cngroups (get_class sc (ocls o)))%nat ->
+  let o' := setattr sc o i v in
+  which_one_of o' g = Some i /\
+  (exists x, read sc o' i = Ok x) /\
+  (forall j, j <> i -> member sc (ocls o) g j ->
+     read sc o' j = Err EAttribute /\ nth j (oraw o') PPlaceholder = PPlaceholder) /\
+  (forall g', g' <> g -> which_one_of o' g' = which_one_of o g') /\
+  Inv sc o'.
+Proof. exact last_wins. Qed.
+Print Assumptions C07_last_wins.
+
+Theorem C07_last_wins_step : forall sc o i v f g o' x,
+  wf_schema sc = true -> Inv sc o ->
+  nth_error (cfs sc o) i = Some f -> fgroup f = Some g ->
+  step sc o (OSet [] i v) = Ok (o', x) ->
+  which_one_of o' g = Some i.
+Proof. exact last_wins_step. Qed.
+Print Assumptions C07_last_wins_step.
+
+(* ---- reads, nested assignments, assignments outside the group, copies and observers keep the selection ---- *)
+Theorem C07_selection_kept : forall sc o p o' x g,
+  step sc o p = Ok (o', x) ->
+  match p with
+  | OSet [] i _ => forall f, nth_error (cfs sc o) i = Some f -> fgroup f <> Some g
+  | OParse _ | OPickle => False
+  | _ => True
+  end ->
+  which_one_of o' g = which_one_of o g.
+Proof. exact selection_kept. Qed.
+Print Assumptions C07_selection_kept.
+
+(* ---- the constructor selects the LAST member in declaration order that was given a value ---- *)
+Theorem C07_constructor_selects_last : forall sc c raw g k f,
+  length raw = length (cfields (get_class sc c)) -> (g < cngroups (get_class sc c))%nat ->
+  nth_error (cfields (get_class sc c)) k = Some f -> fgroup f = Some g ->
+  is_sentinel f (nth k raw PPlaceholder) = false ->
+  (forall k' f', (k < k')%nat -> nth_error (cfields (get_class sc c)) k' = Some f' -> fgroup f' = Some g ->
+                 is_sentinel f' (nth k' raw PPlaceholder) = true) ->
+  which_one_of (post_init sc c raw) g = Some k.
+Proof. exact post_init_selects_last. Qed.
+Print Assumptions C07_constructor_selects_last.
+
+(* ---- parse(): the selections are a fold over the records read, a record of a declared field with a fitting
+        wire type selects that field in its group ---- *)
+Theorem C07_parse_fold : forall sc o bs o',
+  Inv sc o -> parse_into sc o bs = Ok o' ->
+  exists ps, frames (length bs) (S (length bs)) bs = Ok ps /\
+             ocur o' = fold_left (sel_record (get_class sc (ocls o))) ps (ocur o).
+Proof. intros sc o bs o' H. apply parse_into_selections, InvS_of_Inv, H. Qed.
+Print Assumptions C07_parse_fold.
+
+(* ---- non-vacuity ---- *)
+Definition ex_sc : schema :=
+  mkS (builtin_classes ++
+       [mkC [mkF [x61] 1 TInt32 None (Some 0%nat) None false (HPlain PyInt) 0;
+             mkF [x62] 2 TString None (Some 0%nat) None false (HPlain PyStr) 0;
+             mkF [x63] 3 TMessage None (Some 0%nat) None false (HPlain (PyMsg 12)) 0;
+             mkF [x74] 4 TInt32 None None None false (HPlain PyInt) 0;
+             mkF [x64] 5 TBool None (Some 1%nat) None false (HPlain PyBool) 0;
+             mkF [x65] 6 TSInt64 None (Some 1%nat) None false (HPlain PyInt) 0] 2;
+        mkC [mkF [x78] 1 TInt32 None None None false (HPlain PyInt) 0] 0]) [].
+
+Example C07_ex_wf : wf_schema ex_sc = true.
+Proof. vm_compute. reflexivity. Qed.
+
+(* construct with two members of one group, assign a default, observe, parse three members, copy, pickle, from_dict *)
+Definition ex_ops : list op7 :=
+  [OConstruct [(0%nat, PInt 5); (1%nat, PStr [x78])];
+   OBase (OSet [] 0 (PInt 0));
+   OBase OBytes;
+   OBase (OParse [x08; x01; x1a; x00; x12; x01; x78; x28; x00]);
+   OBase OCopy; OBase ODeepcopy; OBase OPickle;
+   OFromDictInst [(2%nat, PMsg (new ex_sc 12)); (5%nat, PInt 0)];
+   OBase (OSet [2%nat] 0 (PInt 7))].
+
+Example C07_ex_history :
+  match run7 ex_sc (new ex_sc 11) ex_ops with
+  | Ok o => which_one_of o 0 = Some 2%nat /\ which_one_of o 1 = Some 5%nat /\
+            read ex_sc o 0 = Err EAttribute /\ read ex_sc o 1 = Err EAttribute /\
+            enc_obj ex_sc o = Ok [x1a; x02; x08; x07; x30; x00]
+  | Err _ => False
+  end.
+Proof. vm_compute. repeat split. Qed.
+
+(* after the second op (a = 0, the default) the group selects a, b is reset, and a is on the wire *)
+Example C07_ex_default_assignment :
+  match run7 ex_sc (new ex_sc 11) (firstn 2 ex_ops) with
+  | Ok o => which_one_of o 0 = Some 0%nat /\ read ex_sc o 0 = Ok (PInt 0) /\ read ex_sc o 1 = Err EAttribute /\
+            nth 1 (oraw o) PNone = PPlaceholder /\ enc_obj ex_sc o = Ok [x08; x00]
+  | Err _ => False
+  end.
+Proof. vm_compute. repeat split. Qed.
+
+(* the constructor with two members keeps both raw values and hides the loser *)
+Example C07_ex_constructor_two_members :
+  let o := construct ex_sc 11 [(0%nat, PInt 5); (1%nat, PStr [x78])] in
+  oraw o = [PInt 5; PStr [x78]; PPlaceholder; PPlaceholder; PPlaceholder; PPlaceholder] /\
+  which_one_of o 0 = Some 1%nat /\ read ex_sc o 0 = Err EAttribute /\ enc_obj ex_sc o = Ok [x12; x01; x78].
+Proof. vm_compute. repeat split. Qed.
